@@ -443,3 +443,26 @@ Definition check_c01 (o c : list N) (m : list N) (nodes : list (N * N * N * N)) 
     list_eqb N.eqb (concat (map m_surf ms)) o &&
     (match ms with [] => false | _ => true end)
   end.
+
+(* ---- C01, reuse sessions: what a reused MorphemeList reports after collect_results (the path in rewritten-text
+   coordinates is not observable there): the report itself must be a partition of the original with lossless surfaces,
+   and an empty normalised text must yield no morphemes *)
+Definition report_ok (o : list N) (mo : morph) : bool :=
+  list_eqb N.eqb (m_surf mo) (byte_slice o (N.to_nat (m_b mo), N.to_nat (m_e mo))) &&
+  N.eqb (m_bc mo) (N.of_nat (codepoints_before o (N.to_nat (m_b mo)))) &&
+  N.eqb (m_ec mo) (N.of_nat (codepoints_before o (N.to_nat (m_e mo)))) &&
+  list_eqb N.eqb (cp_slice o (N.to_nat (m_bc mo)) (N.to_nat (m_ec mo))) (m_surf mo).
+
+Definition check_c01_report (o c : list N) (m : list N) (ms : list morph) : bool :=
+  let ranges := map (fun mo => (N.to_nat (m_b mo), N.to_nat (m_e mo))) ms in
+  match c with
+  | [] => match ms with [] => true | _ => false end
+  | _ =>
+    inv_b o c (map N.to_nat m) &&
+    partition_b o ranges &&
+    forallb (report_ok o) ms &&
+    (* every reported cut is the image of a character boundary of the rewritten text *)
+    forallb (fun r => existsb (fun p => is_boundary c p && Nat.eqb (nth p (map N.to_nat m) 0) (fst r)) (seq 0 (length c + 1))) ranges &&
+    list_eqb N.eqb (concat (map m_surf ms)) o &&
+    (match ms with [] => false | _ => true end)
+  end.
